@@ -63,13 +63,21 @@ def build_coq(targets=None, timeout=1500):
             stub = '(* translation FAILED: ' + (out3.strip().splitlines() or ['?'])[-1].replace('*)', '* )')[:300] + ' *)\n'
             if not os.path.exists(srcm_v) or open(srcm_v).read() != stub:
                 open(srcm_v, 'w').write(stub)
+        # T1d: the control skeleton of EvalContext.evaluate_node over the primitives of Model/Eval.v (fail-closed likewise)
+        srce_v = os.path.join(COQ, 'Gen', 'SrcEval.v')
+        rc4, out4 = sh([PY, os.path.join(VERIF, 'tools', 'translate_eval.py'), srce_v], timeout=120)
+        srce_ok = rc4 == 0
+        if not srce_ok:
+            stub = '(* translation FAILED: ' + (out4.strip().splitlines() or ['?'])[-1].replace('*)', '* )')[:300] + ' *)\n'
+            if not os.path.exists(srce_v) or open(srce_v).read() != stub:
+                open(srce_v, 'w').write(stub)
         if not os.path.exists(os.path.join(COQ, 'Makefile')):
             sh('coq_makefile -f _CoqProject -o Makefile', cwd=COQ)
         cmd = f'timeout {timeout} make -k -j{NCPU} ' + (' '.join(targets) if targets else '')
         rc, out = sh(cmd, cwd=COQ, timeout=timeout + 30)
     failed = re.findall(r'\[Makefile[^\]]*: ([^\]]+\.vo)\] Error', out)
     errs = re.findall(r'File "\./([^"]+)", line (\d+)[^\n]*\n(Error:[^\n]*(?:\n[^\n]+){0,6})', out)
-    return dict(ok=(rc == 0 and facts_ok and src_ok and srcm_ok), facts_ok=facts_ok, facts_log=facts_log, src_ok=src_ok, src_log=out2, srcm_ok=srcm_ok, srcm_log=out3, log=out[-6000:], failed=sorted(set(failed)),
+    return dict(ok=(rc == 0 and facts_ok and src_ok and srcm_ok and srce_ok), srce_ok=srce_ok, srce_log=out4, facts_ok=facts_ok, facts_log=facts_log, src_ok=src_ok, src_log=out2, srcm_ok=srcm_ok, srcm_log=out3, log=out[-6000:], failed=sorted(set(failed)),
                 errors=[dict(file=f, line=int(l), msg=m[:600]) for f, l, m in errs], wall_s=time.time() - t0)
 
 
